@@ -3095,7 +3095,11 @@ handle_request(coap_context_t *context, coap_session_t *session, coap_pdu_t *pdu
     coap_tick_t now;
 
     coap_ticks(&now);
-    if (async->delay == 0 || async->delay > now) {
+    if (pdu != async->pdu || async->delay == 0 || async->delay > now) {
+      /*
+       * Only coap_check_async() passing the stored request is the delayed
+       * invocation; anything else is a retransmission from the peer.
+       */
       /* re-transmit missing ACK (only if CON) */
       coap_log_info("Retransmit async response\n");
       coap_send_ack_lkd(session, pdu);
